@@ -12,6 +12,7 @@ import (
 	"verif/twin/c10c"
 	"verif/twin/c10d"
 	"verif/twin/c10e"
+	"verif/twin/c10f"
 )
 
 var c10Specs = []*twinSpec{
@@ -20,6 +21,7 @@ var c10Specs = []*twinSpec{
 	{Name: "c10c-opsoup", Source: c10c.Source, Native: c10c.Main, Model: true},
 	{Name: "c10d-shared-closures", Source: c10d.Source, Native: c10d.Main, Determinate: "="},
 	{Name: "c10e-timeouts", Source: c10e.Source, Native: c10e.Main, Determinate: "all"},
+	{Name: "c10f-select-kinds", Source: c10f.Source, Native: c10f.Main, Determinate: "all"},
 }
 
 func init() {
